@@ -176,6 +176,8 @@ type streamCase struct {
 	ConsumerStalls bool  `json:"consumer_stalls,omitempty"`
 	// direct call (C01)
 	Direct bool `json:"direct,omitempty"`
+	// bytes the same handler processed as a stream before the direct call
+	Prior string `json:"stream_processed_before,omitempty"`
 	// expectation (C03/C12)
 	Expect []expSeg `json:"expect,omitempty"`
 	// C12: the uncorrupted stream and the delivery index of the victim
@@ -256,6 +258,14 @@ func execC01Stream(c *child.Ctx, k streamCase, cj []byte) {
 func execC01Direct(c *child.Ctx, k streamCase, cj []byte) {
 	input := unhex(k.Input)
 	h := handler.New(fixedStart, slog.LevelInfo)
+	if k.Prior != "" {
+		// the handler has processed a stream before
+		func() {
+			defer func() { recover() }()
+			streamThrough(h, unhex(k.Prior))
+		}()
+		c.Count("direct_after_a_stream", 1)
+	}
 	var m *handler.Message
 	var err error
 	func() {
@@ -342,8 +352,13 @@ func directCandidate(r *ref.SplitMix64) (b []byte, note string) {
 	for !gen.SafeMSMPayload(f.Type, len(f.Bytes)-6) && r.Chance(9, 10) {
 		f = gen.RandFrame(r)
 	}
-	fb := append([]byte(nil), f.Bytes...)
-	switch r.Intn(12) {
+	return candidateFrom(r, f.Bytes, r.Intn(12))
+}
+
+// candidateFrom derives the candidate of the given kind from one valid frame.
+func candidateFrom(r *ref.SplitMix64, frame []byte, kind int) (b []byte, note string) {
+	fb := append([]byte(nil), frame...)
+	switch kind {
 	case 0:
 		return fb, "valid frame alone"
 	case 1:
@@ -381,7 +396,11 @@ func directCandidate(r *ref.SplitMix64) (b []byte, note string) {
 		return fb[:r.Range(1, len(fb)-1)], "truncated frame"
 	case 9:
 		z := []byte{0xD3, 0, 0}
-		z = append(z, r.Bytes(r.Range(0, 6))...)
+		if r.Chance(1, 2) {
+			z = append(z, r.Bytes(r.Range(0, 6))...)
+		} else {
+			z = append(z, fb[3:len(fb)-3]...) // as long as the frame it is derived from
+		}
 		cc := ref.CRC24Q(z)
 		return append(z, byte(cc>>16), byte(cc>>8), byte(cc)), "zero length field with a valid CRC"
 	case 10:
@@ -451,6 +470,43 @@ func monC01(c *child.Ctx, replay json.RawMessage) {
 		k := streamCase{Input: hexs(f.Bytes), Direct: true, Note: "reused buffer"}
 		cj := c.BeginV(k)
 		execC01Reused(c, r, f.Bytes, cj)
+	}
+	// single-frame decoding on a handler that has processed a stream before - in
+	// particular one that ended inside the leader, the body or the CRC of a frame of
+	// the same size as the candidate
+	nPrior := c.Share(c.Pick(1600, 40000))
+	for i := 0; i < nPrior; i++ {
+		f := gen.RandFrame(r)
+		for !gen.SafeMSMPayload(f.Type, len(f.Bytes)-6) || len(f.Bytes) > 80 {
+			f = gen.RandFrame(r)
+		}
+		var prior []byte
+		if r.Chance(1, 2) {
+			prior = append(prior, gen.RandFrame(r).Bytes...)
+		}
+		if r.Chance(1, 3) {
+			prior = append(prior, gen.Junk(r).Bytes...)
+		}
+		switch r.Intn(4) {
+		case 0:
+			prior = append(prior, f.Bytes...) // the whole frame
+		default:
+			prior = append(prior, f.Bytes[:r.Range(1, len(f.Bytes)-1)]...) // cut off
+		}
+		other := gen.RandFrame(r)
+		for tries := 0; tries < 50 && len(other.Bytes) != len(f.Bytes); tries++ {
+			other = gen.RandFrame(r)
+		}
+		for kind := 0; kind < 12; kind++ {
+			base := f.Bytes
+			if kind%2 == 1 && len(other.Bytes) == len(f.Bytes) && gen.SafeMSMPayload(other.Type, len(other.Bytes)-6) {
+				base = other.Bytes // same size, another type
+			}
+			b, note := candidateFrom(r, base, kind)
+			k := streamCase{Input: hexs(b), Direct: true, Note: note + ", on a handler that processed a stream before", Prior: hexs(prior)}
+			cj := c.BeginV(k)
+			execC01Direct(c, k, cj)
+		}
 	}
 	nDirect := c.Share(c.Pick(100000, 2000000))
 	for i := 0; i < nDirect; i++ {
